@@ -16,9 +16,10 @@ import re
 import threading
 from concurrent.futures import ThreadPoolExecutor
 
-from vlib import Run, tlc_tagged, Infra
+from vlib import Run, tlc_tagged, Infra, NCPU
 
 ALL_MS = '{"set", "add", "replace", "append", "prepend", "delete", "touch", "get", "gete", "gat"}'
+FEWER_MS = '{"set", "add", "replace", "append", "delete", "touch", "get", "gat"}'
 ALL_INVS = "LockDiscipline WritesOnlyUnderWriteLock AccessUnderLock NoConcurrentMapAccess ResultsRefine StateRefines ReadersDoNotMutate"
 
 DESIGN_CFG = """SPECIFICATION Spec
@@ -45,28 +46,37 @@ CHECK_DEADLOCK FALSE
 READER_FUNCS = {"Get": "get", "GetE": "gete"}
 
 
-def design_cfg(procs=3, keys=1, maxops=1, multi=True, rd=False, coded=False, invs=ALL_INVS):
+def design_cfg(procs=3, keys=1, maxops=1, multi=True, rd=False, coded=False, invs=ALL_INVS, ms=ALL_MS):
     b = lambda x: "TRUE" if x else "FALSE"
     return DESIGN_CFG % {"procs": procs, "keys": ", ".join('"k%d"' % (i + 1) for i in range(keys)), "maxops": maxops,
-                         "ms": ALL_MS, "multi": b(multi), "rd": b(rd), "coded": b(coded), "invs": invs}
+                         "ms": ms, "multi": b(multi), "rd": b(rd), "coded": b(coded), "invs": invs}
 
 
 def design(run, quick, acc):
     """Exhaustive runs of the design model; negative controls. Appends (distinct, generated) to acc."""
-    sizes = [("Inmem_quick.cfg", "3 goroutines x 1 op, 1 key, two-key gets"),
+    small = [("Inmem_quick.cfg", "3 goroutines x 1 op, 1 key, two-key gets"),
              (design_cfg(procs=2, keys=2, maxops=1), "2 goroutines x 1 op, 2 keys, two-key gets")]
-    if not quick:
-        sizes += [(design_cfg(procs=3, keys=2, maxops=1), "3 goroutines x 1 op, 2 keys, two-key gets"),
-                  (design_cfg(procs=2, keys=2, maxops=2), "2 goroutines x 2 ops, 2 keys, two-key gets"),
-                  (design_cfg(procs=3, keys=1, maxops=2), "3 goroutines x 2 ops, 1 key, two-key gets")]
+    big = [] if quick else [
+        (design_cfg(procs=3, keys=2, maxops=1), "3 goroutines x 1 op, 2 keys, two-key gets"),
+        (design_cfg(procs=2, keys=2, maxops=2), "2 goroutines x 2 ops, 2 keys, two-key gets"),
+        (design_cfg(procs=3, keys=1, maxops=2, ms=FEWER_MS), "3 goroutines x 2 ops, 1 key, no prepend/gete (twins of append/get)")]
     runs = []
-    for cfg, name in sizes:
-        res = run.tlc("Inmem", cfg, timeout=1500, count=False)
+
+    def one(item, workers=None):
+        cfg, name = item
+        res = run.tlc("Inmem", cfg, timeout=1500, count=False, workers=workers)
         if res.violated or not res.ok:
             raise Infra("Inmem.tla (%s) violates %s: specification bug" % (name, res.violated))
         acc.append((res.distinct, res.generated))
         runs.append({"model": name, "distinct": res.distinct, "wall_s": round(res.wall, 1)})
         run.log("design %-45s %8d distinct states, %.0fs" % (name, res.distinct, res.wall))
+
+    for item in small:
+        one(item)
+    if big:
+        # three medium-sized runs side by side use the processors better than one after the other
+        with ThreadPoolExecutor(max_workers=len(big)) as ex:
+            list(ex.map(lambda it: one(it, max(2, NCPU // len(big))), big))
     run.extra["design_runs"] = runs
     # negative controls: today's code, expressed in the model, must violate each of these
     negs = [("ReadersDelete", dict(rd=True), "WritesOnlyUnderWriteLock"),
@@ -212,6 +222,15 @@ def trim(access):
     return out
 
 
+def describe(access):
+    """'write by Get (handlers/inmem/inmem.go:172, runtime.mapdelete_faststr)'"""
+    f = inmem_func(access) or "?"
+    loc = next((l for _, l in access["frames"] if "/handlers/inmem/" in l), "")
+    loc = loc[loc.index("handlers/inmem/"):] if "handlers/inmem/" in loc else loc
+    top = re.sub(r"\(\)$", "", access["frames"][0][0]) if access["frames"] else "?"
+    return "%s by %s (%s, %s)" % (access["kind"].lower().replace("previous ", ""), f, loc, top)
+
+
 def race_candidates(run, procs, seed):
     seen = {}
     total = other = 0
@@ -238,14 +257,12 @@ def race_candidates(run, procs, seed):
                 if key in seen:
                     continue
                 stacks = [trim(a) for a in accesses[:2]]
+                both = " while in another goroutine: ".join(describe(x) for x in accesses[:2])
                 if "writer" in sig:
-                    what = ("data race: %s, which holds only the READ lock, writes the shared map (%s) concurrently with %s in another "
-                            "goroutine (%d goroutines): %s" % (sig["writer"], next((a["frames"][0][0] for f, a in zip(funcs, accesses)
-                                                                                    if a["write"] and f == sig["writer"]), "?"),
-                                                               " / ".join("%s %s" % (a["kind"].lower(), f) for f, a in zip(funcs, accesses)),
-                                                               p["g"], " | ".join(" ; ".join(s[:3]) for s in stacks)))
+                    what = ("data race on the shared map: %s, a reader method holding only the READ lock, performs a map write; %s; "
+                            "%d goroutines on the instance, round seed %d" % (sig["writer"], both, p["g"], p["seed"]))
                 else:
-                    what = "data race inside handlers/inmem (%s, %d goroutines): %s" % (label, p["g"], " | ".join(" ; ".join(s[:3]) for s in stacks))
+                    what = "data race inside handlers/inmem: %s; %d goroutines on the instance" % (both, p["g"])
                 seen[key] = True
                 run.candidate("Race", what, sig=sig, detail={"stacks": stacks, "round": p["round"], "goroutines": p["g"]},
                               replay={"driver": "inmem", "mode": "conc-child", "race": True, "seed": p["seed"], "workers": p["g"],
